@@ -84,10 +84,32 @@ func (st *strat) Choose(s *vsched.Sched, opts []vsched.Transition, nThread, cur 
 	}
 	if nThread > 0 {
 		if !(w.sc.Fine && w.fineNow) {
+			b := 0
 			if cur >= 0 {
-				return cur
+				b = cur
 			}
-			return 0
+			if s.SelectBranch && !w.noDevs && opts[b].T.Group >= 1000 {
+				// Go picks at random among the ready cases of a select: every other ready case of the select the
+				// scheduled thread sits in is a deviation
+				idx := []int{b}
+				for j := 0; j < nThread; j++ {
+					if j != b && opts[j].T == opts[b].T {
+						idx = append(idx, j)
+					}
+				}
+				if len(idx) > 1 {
+					labels := make([]string, len(idx))
+					costs := make([]int, len(idx))
+					for i, j := range idx {
+						labels[i] = "select " + opts[j].String()
+						if i > 0 {
+							costs[i] = 1
+						}
+					}
+					return idx[w.rec.choose(labels, costs)]
+				}
+			}
+			return b
 		}
 		return st.chooseFine(s, opts, nThread, cur)
 	}
@@ -233,7 +255,7 @@ func runOnce(sc *Scenario, prefix []int, prefixLabels []string, trace bool) (res
 	if debugPrefix {
 		fmt.Fprintln(os.Stderr, "RUN", prefix)
 	}
-	w := &World{sc: sc, blocked: map[[2]int]bool{}, keepTr: trace, vals: map[string]int{}, tvals: map[string]time.Duration{}, randExtra: map[int]int64{}, inj: injState{iso: -1}}
+	w := &World{sc: sc, blocked: map[[2]int]bool{}, keepTr: trace, vals: map[string]int{}, tvals: map[string]time.Duration{}, randExtra: map[int]int64{}, inj: injState{iso: -1}, stallNode: -1}
 	vrand.Int63Fn = func() int64 {
 		if n := w.nodeOfCur(); n != nil {
 			if w.sc.Devs&DevRand != 0 && !w.noDevs && n.booted {
@@ -251,6 +273,7 @@ func runOnce(sc *Scenario, prefix []int, prefixLabels []string, trace bool) (res
 	st := &strat{w: w}
 	s := vsched.New(st)
 	w.sched = s
+	s.SelectBranch = sc.Devs&DevSelect != 0
 	vtime.Reset()
 	s.EnvFn = func(nThread int) []vsched.EnvT {
 		if w.internalErr != "" {
